@@ -35,4 +35,34 @@ var props = []propCfg{
 		Assume: []string{"yield points exist in tink code only: the standard library, x/crypto and protobuf run atomically between them", "ThreadSanitizer's bounded access history", "amd64 store ordering for the norace baton",
 			"randomness drawn inside the standard library without a reader (ML-KEM) is checked semantically (recipient decrypts) instead of byte-for-byte"},
 	},
+	{
+		ID: "C05", World: "rotation", Pkg: "worlds/rotation", Test: "TestRotation", Level: "exploration",
+		Variants: []variant{{Name: "plain", Quick: 2000, Thorough: 100000, Workers: 16, QuickS: 1500, ThoroughS: 4 * 3600}},
+		Rule: "TODO",
+		Assume: []string{"TODO"},
+	},
+	{
+		ID: "C09", World: "jwtclock", Pkg: "worlds/jwtclock", Test: "TestJWTClock", Level: "exploration",
+		Variants: []variant{{Name: "plain", Quick: 500, Thorough: 30000, Workers: 16, QuickS: 1500, ThoroughS: 4 * 3600}},
+		Rule: "TODO",
+		Assume: []string{"TODO"},
+	},
+	{
+		ID: "C14", World: "atrest", Pkg: "worlds/atrest", Test: "TestAtRest", Level: "exploration",
+		Variants: []variant{{Name: "plain", Quick: 5000, Thorough: 300000, Workers: 16, QuickS: 1500, ThoroughS: 4 * 3600}},
+		Rule: "TODO",
+		Assume: []string{"TODO"},
+	},
+	{
+		ID: "C19", World: "memory", Pkg: "worlds/memory", Test: "TestMemory", Level: "exploration",
+		Variants: []variant{{Name: "plain", Quick: 1000, Thorough: 60000, Workers: 16, QuickS: 1500, ThoroughS: 4 * 3600}},
+		Rule: "TODO",
+		Assume: []string{"TODO"},
+	},
+	{
+		ID: "C20", World: "entropy", Pkg: "worlds/entropy", Test: "TestEntropy", Level: "exploration",
+		Variants: []variant{{Name: "plain", Quick: 1000, Thorough: 60000, Workers: 16, QuickS: 1500, ThoroughS: 4 * 3600}},
+		Rule: "TODO",
+		Assume: []string{"TODO"},
+	},
 }
